@@ -11,6 +11,7 @@ def endmdl : String := "ENDMDL"
 def carriable : List String := ["np.isin(bond_array[:,0],hetero_indices)", "np.isin(bond_array[:,1],hetero_indices)", "array.res_id[bond_array[:,0]]!=array.res_id[bond_array[:,1]]", "array.chain_id[bond_array[:,0]]!=array.chain_id[bond_array[:,1]]"]
 def heteroIndices : String := "np.where(array.hetero&~filter_solvent(array))[0]"
 def int64Casts : List String := ["array.atom_id", "array.get_annotation(category)"]
+def setBondsArgs : List String := ["BondList(array.array_length(),bond_array)", "pdb_atom_id"]
 def solventList : List String := ["HOH", "SOL"]
 def conectPerRecord : Nat := 4
 def conectParts : List (List String) := [["CONECT", "{>5}"], ["{>5}"]]
